@@ -13,7 +13,8 @@ META = {
                    'lock-step on every path, the destructor is the table entry of that key, null-tested, the slot is cleared '
                    'before the call and the value passed is the slot\'s former content; a key created without a destructor gets a '
                    'NULL table entry; (5) every way of terminating a thread (return through both entry styles, exit, cancel) '
-                   'runs the TLS teardown before the thread is marked finished.',
+                   'runs the TLS teardown before the thread is marked finished.'
+                   " Deleting a key clears its destructor inside the allocator's critical section (C11.4, defect D17).",
     'not_decided': 'exactly-once per (thread,key) at run time for arbitrary key subsets (follows structurally from the walk '
                    'visiting each slot once, not re-verified dynamically); destructors that re-set values',
     'assumptions': ['keys[] entries of live keys are not modified during the walk'],
